@@ -1,17 +1,249 @@
-//! C05 — stub (monitor not written yet)
-use serde_json::Value;
+//! C05 — invalid input is refused, with the matching error, however it is spelled.
+//!
+//! Never-accepted clause: whatever the strict recogniser R1 classifies as MustReject must be
+//! refused by every instantiation. Error clause: a legal spelling damaged by exactly one fault
+//! (G3) must be answered with the error variant the statement assigns to that fault. The
+//! injector is cross-checked against R1 (it must see exactly that one defect class).
 
-use super::Fail;
-use crate::obs::{Ctx, Tier};
+use std::fmt::Debug;
+use std::str::FromStr;
 
-pub const RULE: &str = "";
+use purl::{PackageType, PurlShape, SmallString};
+use serde_json::{json, Value};
 
-pub fn requirements(_tier: Tier) -> Vec<(&'static str, u64)> {
-    vec![("not-implemented", 1)]
+use super::{str_field, Fail};
+use crate::gen;
+use crate::model::{analyse, classify, known_type, type_chars_ok, Class};
+use crate::obs::{self, Ctx, Out, Tier};
+use crate::rng::fnv;
+use crate::shrink::shrink_str;
+use crate::spell::{self, expected_error, FAULT_KINDS};
+
+pub const RULE: &str = "a case is one invalid string for one instantiation (recogniser says MustReject, or a legal spelling with exactly one injected fault); non-trivial = every one of them (each carries a defect the parser must find); distinct by hash of (instantiation, string)";
+
+fn leak(s: String) -> &'static str {
+    Box::leak(s.into_boxed_str())
 }
 
-pub fn run(_ctx: &mut Ctx) {}
+pub fn requirements(tier: Tier) -> Vec<(&'static str, u64)> {
+    let mut v = vec![
+        ("must-reject-confirmed:String", if tier == Tier::Quick { 1_000_000 } else { 10_000_000 }),
+        ("must-reject-confirmed:Purl", 1_000_000),
+        ("typed:unknown-type", 25),
+        ("typed:maven-no-namespace", 50),
+    ];
+    for k in FAULT_KINDS {
+        for inst in ["String", "SmallString", "Purl"] {
+            v.push((leak(format!("fault:{k}:{inst}")), 50));
+        }
+    }
+    v
+}
 
-pub fn replay(_monitor: &str, _case: &Value) -> Result<Option<Fail>, String> {
-    Err("not implemented".into())
+/// R1 class that a G3 fault kind must show up as.
+fn class_of(kind: &str) -> &'static str {
+    match kind {
+        k if k.starts_with("scheme") => "scheme",
+        "no-type" => "no-type",
+        "type-invalid-char" | "type-percent-encoded" => "type-invalid",
+        "no-name-no-slash" | "no-name-empty" => "no-name",
+        "qual-no-eq" => "qualifier-no-eq",
+        "qual-key-empty" | "qual-key-invalid" | "qual-key-encoded" => "key",
+        "qual-dup-key" => "dup-key",
+        k if k.starts_with("utf8-") => "utf8",
+        k if k.starts_with("slash-") => "hidden-slash",
+        k if k.starts_with("checksum-") => "checksum",
+        _ => "?",
+    }
+}
+
+fn error_for_class(class: &str) -> &'static str {
+    match class {
+        "scheme" => "UnsupportedUrlScheme",
+        "no-type" => "MissingRequiredField(PackageType)",
+        "type-invalid" => "InvalidPackageType",
+        "no-name" => "MissingRequiredField(Name)",
+        "qualifier-no-eq" | "key" | "dup-key" | "checksum" => "InvalidQualifier",
+        "utf8" | "hidden-slash" => "InvalidEscape",
+        _ => "?",
+    }
+}
+
+/// String-only oracle. `single`: also judge the error variant when R1 sees exactly one class.
+pub fn judge<T>(s: &str, typed: bool, vouched: bool) -> (Option<Vec<&'static str>>, Option<Fail>)
+where
+    T: FromStr + PurlShape,
+    <T as PurlShape>::Error: From<<T as FromStr>::Err> + Debug,
+{
+    let an = analyse(s);
+    if an.rejects.is_empty() {
+        return (None, None);
+    }
+    let classes = an.rejects.clone();
+    // The error clause needs "that defect is the only one": one defect class, nothing the
+    // statements leave open elsewhere in the string, and - for the typed PURL - no type-level
+    // refusal (unknown type, maven without namespace) competing with it.
+    // (A missing scheme is judged for its error only on injector-made strings: without the
+    // prefix the rest of an arbitrary string cannot be said to be otherwise valid.)
+    let mut single = classes.len() == 1 && !an.unspec && (classes[0] != "scheme" || vouched);
+    if single && typed && !matches!(classes[0], "scheme" | "no-type" | "type-invalid") {
+        let ty = &an.comps.ty;
+        single = type_chars_ok(ty) && known_type(ty) && (ty != "maven" || !an.comps.ns.is_empty());
+    }
+    let got = obs::parse::<T>(s);
+    let f = match &got {
+        Out::Ok(_) => Some(Fail::tagged("invalid-accepted", classes.join("+"), format!("{s:?} has defect(s) {classes:?} but was accepted"))),
+        Out::Panic(m) => Some(Fail::tagged("panicked", m.clone(), format!("from_str({s:?}) panicked: {m}"))),
+        Out::Err(e) => {
+            if single {
+                let want = error_for_class(classes[0]);
+                let want = if typed { format!("Parse({want})") } else { want.to_string() };
+                if *e != want {
+                    Some(Fail::tagged("wrong-error", format!("{}:{e}", classes[0]), format!("{s:?} has the single defect {:?}; expected Err({want}), got Err({e})", classes[0])))
+                } else {
+                    None
+                }
+            } else {
+                None
+            }
+        },
+    };
+    (Some(classes), f)
+}
+
+fn judge_dyn(inst: &str, s: &str, vouched: bool) -> (Option<Vec<&'static str>>, Option<Fail>) {
+    match inst {
+        "String" => judge::<String>(s, false, vouched),
+        "SmallString" => judge::<SmallString>(s, false, vouched),
+        "Purl" => judge::<PackageType>(s, true, vouched),
+        _ => (None, None),
+    }
+}
+
+fn one(ctx: &mut Ctx, inst: &'static str, key: &'static str, s: &str, vouched: bool) -> Option<Vec<&'static str>> {
+    let (classes, f) = judge_dyn(inst, s, vouched);
+    if classes.is_some() {
+        ctx.st.evaluations += 1;
+        ctx.st.count(key);
+        ctx.st.nontrivial(fnv(format!("{inst}\u{0}{s}").as_bytes()));
+    }
+    if let Some(f) = f {
+        let (kind, tag) = (f.kind.clone(), f.tag.clone());
+        let min = shrink_str(s, &mut |c| judge_dyn(inst, c, vouched).1.map_or(false, |g| g.kind == kind && g.tag == tag));
+        let g = judge_dyn(inst, &min, vouched).1.unwrap_or(f);
+        ctx.st.violation("C05.reject", g.signature("C05.reject", &min), g.detail, json!({"kind": "string", "instantiation": inst, "input": min, "original_input": s, "vouched_single_fault": vouched}));
+    }
+    classes
+}
+
+fn all_insts(ctx: &mut Ctx, s: &str) -> Option<Vec<&'static str>> {
+    let c = one(ctx, "String", "must-reject-confirmed:String", s, false);
+    one(ctx, "SmallString", "must-reject-confirmed:SmallString", s, false);
+    one(ctx, "Purl", "must-reject-confirmed:Purl", s, false);
+    c
+}
+
+/// Typed extras: unknown type / maven without namespace. Returns a failure if the typed PURL
+/// does not answer with `want` while the type-agnostic PURL accepts.
+pub fn judge_typed_extra(s: &str, want: &str) -> Option<Fail> {
+    match obs::parse::<String>(s) {
+        Out::Ok(_) => {},
+        o => return Some(Fail::tagged("harness", "generic-refused", format!("harness error: {s:?} should be accepted by the type-agnostic PURL, got {}", o.kind()))),
+    }
+    match obs::parse::<PackageType>(s) {
+        Out::Err(e) if e == want => None,
+        o => Some(Fail::tagged("typed-wrong-answer", format!("{want}:{}", o.kind()), format!("{s:?}: typed PURL must answer Err({want}), got {}", o.kind()))),
+    }
+}
+
+pub fn run(ctx: &mut Ctx) {
+    // never-accepted clause on the complete token language
+    let (w, n, quick) = (ctx.worker, ctx.nworkers, ctx.quick());
+    let mut f = |_i: u64, s: &str| {
+        all_insts(ctx, s);
+    };
+    let (total, name) = gen::for_each_g1(quick, w, n, &mut f);
+    if ctx.worker == 0 {
+        ctx.st.exhaustive.push(json!({"name": format!("{name}; every string the recogniser classifies MustReject must be refused (and with the assigned error when it has a single defect class)"), "size": total, "completed": true, "instantiations": 3}));
+    }
+    // error clause: single faults injected into legal spellings
+    let mut r = ctx.rng("c05.g3");
+    for _ in 0..ctx.share(200_000, 5_000_000) {
+        let known = r.coin();
+        let t = spell::gen_tuple(&mut r, known);
+        let mask = spell::random_mask(&mut r);
+        let sp = spell::spell(&mut r, &t, mask);
+        // a few fault kinds per spelling
+        for _ in 0..3 {
+            let kind = *r.pick(FAULT_KINDS);
+            let Some(s) = spell::inject(&mut r, &t, &sp, kind) else { continue };
+            // the injector must have produced exactly this one defect, according to R1
+            match classify(&s) {
+                Class::MustReject(c) if c == vec![class_of(kind)] => {},
+                other => {
+                    ctx.st.count("harness-error:injector-disagrees-with-recogniser");
+                    ctx.st.set_insert("harness-errors", json!({"harness_error": "G3 vs R1", "fault": kind, "string": s, "recogniser": format!("{other:?}")}).to_string());
+                    continue;
+                },
+            }
+            debug_assert_eq!(expected_error(kind), error_for_class(class_of(kind)));
+            ctx.st.sample(|| json!({"fault": kind, "string": s, "expected_error": expected_error(kind)}));
+            one(ctx, "String", "must-reject-confirmed:String", &s, true);
+            ctx.st.count_dyn(format!("fault:{kind}:String"));
+            one(ctx, "SmallString", "must-reject-confirmed:SmallString", &s, true);
+            ctx.st.count_dyn(format!("fault:{kind}:SmallString"));
+            if known {
+                one(ctx, "Purl", "must-reject-confirmed:Purl", &s, true);
+                ctx.st.count_dyn(format!("fault:{kind}:Purl"));
+            }
+        }
+        // typed extras
+        if known && crate::model::ascii_lower(&t.ty) == "maven" {
+            let mut sp2 = sp.clone();
+            sp2.ns = match r.below(3) {
+                0 => vec![],
+                1 => vec![String::new()],
+                _ => vec![String::new(), String::new()],
+            };
+            // raw '@'/'?'/'#' inside the old namespace are gone with it; the rest is untouched
+            let s = sp2.assemble();
+            ctx.st.evaluations += 1;
+            ctx.st.count("typed:maven-no-namespace");
+            if let Some(f) = judge_typed_extra(&s, "MissingRequiredField(Namespace)") {
+                ctx.st.violation("C05.typed", f.signature("C05.typed", &s), f.detail, json!({"kind": "typed", "input": s, "want": "MissingRequiredField(Namespace)"}));
+            }
+        }
+    }
+    // typed: every other type name of the spec, and random well-formed unknown types
+    let mut r = ctx.rng("c05.types");
+    let others = crate::mon::c15::SPEC_OTHER_TYPES;
+    for i in 0..ctx.share(2_000, 50_000) {
+        let ty = if (i as usize) < others.len() && ctx.worker == 0 { others[i as usize].to_string() } else { spell::gen_type(&mut r) };
+        if crate::model::known_type(&crate::model::ascii_lower(&ty)) {
+            continue;
+        }
+        let mut t = spell::gen_tuple(&mut r, false);
+        t.ty = ty;
+        let s = spell::spell(&mut r, &t, 0).assemble();
+        ctx.st.evaluations += 1;
+        ctx.st.count("typed:unknown-type");
+        if let Some(f) = judge_typed_extra(&s, "UnsupportedType") {
+            ctx.st.violation("C05.typed", f.signature("C05.typed", &s), f.detail, json!({"kind": "typed", "input": s, "want": "UnsupportedType"}));
+        }
+    }
+    // mutated corpus for the never-accepted clause
+    let (corpus, _) = gen::load_corpus();
+    let mut r = ctx.rng("c05.g10");
+    for _ in 0..ctx.share(300_000, 8_000_000) {
+        let s = gen::mutate(&mut r, &corpus);
+        all_insts(ctx, &s);
+    }
+}
+
+pub fn replay(_monitor: &str, case: &Value) -> Result<Option<Fail>, String> {
+    match str_field(case, "kind")? {
+        "string" => Ok(judge_dyn(str_field(case, "instantiation")?, str_field(case, "input")?, case.get("vouched_single_fault").and_then(|v| v.as_bool()).unwrap_or(false)).1),
+        "typed" => Ok(judge_typed_extra(str_field(case, "input")?, str_field(case, "want")?)),
+        o => Err(format!("unknown case kind {o}")),
+    }
 }
